@@ -5,14 +5,28 @@
 fn main() {}
 
 #[cfg(not(kani))]
+fn index_sym(h: &str) -> Option<usize> {
+    let path = std::env::var("K_LEX_INDEX").unwrap_or_else(|_| "src/harness_index.json".to_string());
+    let text = std::fs::read_to_string(path).ok()?;
+    let key = format!("\"{}\":", h);
+    let at = text.find(&key)?;
+    let rest = &text[at..];
+    let end = rest.find('}')?;
+    let obj = &rest[..end];
+    let s = obj.find("\"sym\":")?;
+    let num: String = obj[s + 6..].chars().skip_while(|c| c.is_whitespace()).take_while(|c| c.is_ascii_digit()).collect();
+    num.parse().ok()
+}
+
+#[cfg(not(kani))]
 fn main() {
     let a: Vec<String> = std::env::args().collect();
     let prefix = &a[1];
     let alpha: Vec<u8> = (0..a[2].len() / 2).map(|i| u8::from_str_radix(&a[2][2 * i..2 * i + 2], 16).unwrap()).collect();
     let mut total = 0u64; let mut bad = 0u64; let mut skipped = 0u64;
     for h in k_lex::proofs::HARNESSES.iter().filter(|h| h.starts_with(prefix.as_str())) {
-        // input length from the name: ..._n<N>_...
-        let n: usize = h.split('_').find(|p| p.starts_with('n') && p[1..].chars().all(|c| c.is_ascii_digit()) && p.len() > 1).map(|p| p[1..].parse().unwrap()).unwrap_or(0);
+        // number of symbolic bytes: from the generated index ("sym"), else from the name ..._n<N>_...
+        let n: usize = index_sym(h).unwrap_or_else(|| h.split('_').find(|p| p.starts_with('n') && p[1..].chars().all(|c| c.is_ascii_digit()) && p.len() > 1).map(|p| p[1..].parse().unwrap()).unwrap_or(0));
         let mut idx = vec![0usize; n];
         loop {
             let vals: Vec<Vec<u8>> = idx.iter().map(|&i| vec![alpha[i]]).collect();
